@@ -398,6 +398,16 @@ impl Store {
         &mut self,
         path: &[KeySegment],
     ) -> StoreResult<(Vec<KeyValuePair>, Option<Vec<AffectedLsSubscribers>>)> {
+        self.delete_matches_protected(path, false)
+    }
+
+    /// Like `delete_matches`, but if `protect_sys` is set a wildcard in the first segment of the
+    /// pattern does not reach into the server's own `$SYS` subtree.
+    pub fn delete_matches_protected(
+        &mut self,
+        path: &[KeySegment],
+        protect_sys: bool,
+    ) -> StoreResult<(Vec<KeyValuePair>, Option<Vec<AffectedLsSubscribers>>)> {
         let mut ls_subscribers = None;
         let mut matches = Vec::new();
         let traversed_path = vec![];
@@ -408,6 +418,7 @@ impl Store {
             path,
             Some(&self.subscribers),
             &mut ls_subscribers,
+            protect_sys,
         )?;
         self.len = self.len.saturating_sub(matches.len());
         debug_assert!(self.data.is_empty() || self.data.is_clean());
@@ -458,7 +469,11 @@ impl Store {
         relative_path: &[KeySegment],
         subscribers: Option<&SubscribersNode>,
         ls_subscribers: &mut Option<Vec<(Vec<LsSubscriber>, Vec<String>)>>,
+        protect_sys: bool,
     ) -> StoreResult<()> {
+        // only a wildcard in the very first segment can reach $SYS without naming it
+        let skip_sys = protect_sys && traversed_path.is_empty();
+
         if relative_path.is_empty() {
             if let Some(value) = node.take_value() {
                 let key = traversed_path.join("/");
@@ -480,18 +495,39 @@ impl Store {
                         &format_path(tail),
                     )));
                 }
-                Store::ncollect_matches(
-                    node,
-                    traversed_path.clone(),
-                    &[KeySegment::MultiWildcard],
-                    matches,
-                    subscribers,
-                    ls_subscribers,
-                )?;
-                node.drop_children();
+                if skip_sys {
+                    for id in node.ls_owned() {
+                        if id == SYSTEM_TOPIC_ROOT {
+                            continue;
+                        }
+                        Store::ndelete_child_matches(
+                            node,
+                            &id,
+                            traversed_path.clone(),
+                            matches,
+                            relative_path,
+                            subscribers,
+                            ls_subscribers,
+                            protect_sys,
+                        )?;
+                    }
+                } else {
+                    Store::ncollect_matches(
+                        node,
+                        traversed_path.clone(),
+                        &[KeySegment::MultiWildcard],
+                        matches,
+                        subscribers,
+                        ls_subscribers,
+                    )?;
+                    node.drop_children();
+                }
             }
             KeySegment::Wildcard => {
                 for id in node.ls_owned() {
+                    if skip_sys && id == SYSTEM_TOPIC_ROOT {
+                        continue;
+                    }
                     let traversed_path = traversed_path.clone();
                     Store::ndelete_child_matches(
                         node,
@@ -501,6 +537,7 @@ impl Store {
                         tail,
                         subscribers,
                         ls_subscribers,
+                        protect_sys,
                     )?;
                 }
             }
@@ -513,6 +550,7 @@ impl Store {
                     tail,
                     subscribers,
                     ls_subscribers,
+                    protect_sys,
                 )?;
             }
         }
@@ -521,6 +559,7 @@ impl Store {
         Ok(())
     }
 
+    #[allow(clippy::too_many_arguments)]
     fn ndelete_child_matches<'a>(
         node: &mut StoreNode,
         id: &'a RegularKeySegment,
@@ -529,6 +568,7 @@ impl Store {
         relative_path: &[KeySegment],
         subscribers: Option<&SubscribersNode>,
         ls_subscribers: &mut Option<Vec<(Vec<LsSubscriber>, Vec<String>)>>,
+        protect_sys: bool,
     ) -> StoreResult<()> {
         traversed_path.push(id);
 
@@ -540,6 +580,7 @@ impl Store {
                 relative_path,
                 subscribers.and_then(|s| s.tree.get(id)),
                 ls_subscribers,
+                protect_sys,
             )?;
             if node.trim() {
                 let new_children = node.ls_owned();
